@@ -476,6 +476,8 @@ async fn exec<const N: usize>(st: &mut St<N>, ctx: &mut Ctx, toks: &[&str]) {
                 "never" => s.force_update_active_blob(|_| false).await,
                 "some" => s.force_update_active_blob(|x| x.is_some()).await,
                 "nonempty" => s.force_update_active_blob(|x| x.map_or(false, |x| x.records_count > 0)).await,
+                // code of the caller that fails: it runs inside the worker task
+                "panics" => s.force_update_active_blob(|_| panic!("predicate of the caller")).await,
                 _ => panic!("pred"),
             };
             ctx.emit("force_update sent");
